@@ -8,7 +8,8 @@ import XzVerif.Model.Xz
   Model/LazyDec2.lean.  The parsers of headers, index and footer are those of Model/Xz.lean (`readStreamHeader`,
   `readBlockHeader`, `readTail`).  What the batch model `Xz.read` cannot express is here: which call returns what —
   a Read that ends exactly at a block or stream boundary, the checks made before an LZMA2-level error surfaces, the
-  clean end only after the source reported end of input.  The source delivers the whole input.  Core-only.
+  clean end only after the source reported end of input.  The source delivers the whole input and then io.EOF or —
+  `srcErr` — an error of its own (C09): no clean end is possible then.  Core-only.
 -/
 namespace LazyXz
 open Lzma Xz LazyDec LazyDec2
@@ -31,6 +32,7 @@ structure X where
   cfgCap : Nat                   -- ReaderConfig.DictCap after fill
   single : Bool
   sr : Option Sr
+  srcErr : Bool := false         -- the source fails (error other than io.EOF) where `inp` ends
 
 def oerr (s : String) : RStat := .err (.other s)
 
@@ -39,30 +41,40 @@ def ofStatus : Status → RStat
   | .unexpectedEOF => .err .unexpectedEOF
   | .err w => .err (.other w)
 
+/-- the parsers of Model/Xz.lean report `.unexpectedEOF` exactly where they run out of input: with a failing source
+    that is the source's error (io.ReadFull and the byte reader hand it on; only io.EOF is translated) -/
+def ofStatusE (srcErr : Bool) : Status → RStat
+  | .unexpectedEOF => if srcErr then .err .src else .err .unexpectedEOF
+  | st => ofStatus st
+
 /-- `newStreamReader`: `.ok sr`, or padding, or an error (`.eof` = no byte left) -/
 inductive NS where
   | ok (sr : Sr) (pos : Nat)
   | padding (pos : Nat)
   | fail (st : RStat)
 
-def newStreamReader (inp : ByteArray) (pos : Nat) : NS :=
+def newStreamReaderE (srcErr : Bool) (inp : ByteArray) (pos : Nat) : NS :=
   match readStreamHeader inp pos with
-  | .cleanEnd => .fail .eof
+  | .cleanEnd => .fail (if srcErr then .err .src else .eof)
   | .padding => .padding (pos + 4)
-  | .fail st => .fail (ofStatus st)
+  | .fail st => .fail (ofStatusE srcErr st)
   | .ok flags => .ok { flags := flags } (pos + 12)
 
+def newStreamReader (inp : ByteArray) (pos : Nat) : NS := newStreamReaderE false inp pos
+
 /-- `ReaderConfig{DictCap, SingleStream}.NewReader` -/
-def newReader (cfgCap : Nat) (single : Bool) (inp : ByteArray) : Except RStat X :=
+def newReaderE (srcErr : Bool) (cfgCap : Nat) (single : Bool) (inp : ByteArray) : Except RStat X :=
   -- `ReaderConfig.Verify` checks the capacity through a temporary lzma.Reader2Config (0 is accepted as "default") but
   -- does NOT store a default: with DictCap 0 the dictionary of a block is just the size its header declares
   if cfgCap ≠ 0 ∧ (cfgCap < 4096 ∨ cfgCap > 2 ^ 32 - 1) then .error (oerr "dictionary capacity is out of range") else
   let cap := cfgCap
-  match newStreamReader inp 0 with
+  match newStreamReaderE srcErr inp 0 with
   | .fail .eof => .error (.err .unexpectedEOF)
   | .fail st => .error st
   | .padding _ => .error (oerr "padding (4 zero bytes) encountered")
-  | .ok sr pos => .ok { inp := inp, pos := pos, cfgCap := cap, single := single, sr := some sr }
+  | .ok sr pos => .ok { inp := inp, pos := pos, cfgCap := cap, single := single, sr := some sr, srcErr := srcErr }
+
+def newReader (cfgCap : Nat) (single : Bool) (inp : ByteArray) : Except RStat X := newReaderE false cfgCap single inp
 
 /-- `blockReader.Read` for `len > 0`: (state, bytes, status); `none` state = the block is finished -/
 def blockRead (x : X) (sr : Sr) (b : Blk) (len : Nat) : X × Sr × ByteArray × RStat :=
@@ -82,7 +94,7 @@ def blockRead (x : X) (sr : Sr) (b : Blk) (len : Nat) : X × Sr × ByteArray × 
   let s := (checkSize sr.flags).getD 0
   let k := padLen csz
   let p := r2'.srcPos
-  if p + k + s > x.inp.size then keep (.err .unexpectedEOF) else
+  if p + k + s > x.inp.size then keep (if x.srcErr then .err .src else .err .unexpectedEOF) else
   if !allZero x.inp p (p + k) then keep (oerr "non-zero block padding") else
   let stored := x.inp.extract (p + k) (p + k + s)
   let computed := checkValue sr.flags b.data 0 b.data.size
@@ -99,14 +111,14 @@ def streamRead (len : Nat) : Nat → X → Sr → ByteArray → X × Sr × ByteA
       match sr.br with
       | none =>
         match readBlockHeader false x.inp x.pos with
-        | .fail st => (x, sr, acc, ofStatus st)
+        | .fail st => (x, sr, acc, ofStatusE x.srcErr st)
         | .index =>
           let (rd, st) := readTail sr.flags sr.index { inp := x.inp, pos := x.pos, out := ByteArray.empty }
-          if st = .eof then ({ x with pos := rd.pos }, sr, acc, .eof) else (x, sr, acc, ofStatus st)
+          if st = .eof then ({ x with pos := rd.pos }, sr, acc, .eof) else (x, sr, acc, ofStatusE x.srcErr st)
         | .ok hdr =>
           let cap := max x.cfgCap (dictSize hdr.dictCode)
           let body := x.pos + hdr.len
-          let b : Blk := { hdr := hdr, start := body, r2 := newReader2At cap x.inp body }
+          let b : Blk := { hdr := hdr, start := body, r2 := newReader2AtE x.srcErr cap x.inp body }
           streamRead len fuel x { sr with br := some b } acc
       | some b =>
         let (x', sr', out, st) := blockRead x sr b (len - acc.size)
@@ -126,12 +138,12 @@ def readLoop (len : Nat) : Nat → X → ByteArray → X × ByteArray × RStat
       | none =>
         if x.single then
           if x.pos < x.inp.size then ({ x with pos := x.pos + 1 }, acc, oerr "unexpected data after stream")
-          else (x, acc, .eof)
+          else (x, acc, if x.srcErr then .err .src else .eof)
         else
           -- skip padding words, then a stream header or the end of the input
           let rec skip : Nat → Nat → NS
             | 0, p => .padding p
-            | f + 1, p => match newStreamReader x.inp p with
+            | f + 1, p => match newStreamReaderE x.srcErr x.inp p with
               | .padding p' => skip f p'
               | r => r
           match skip (x.inp.size / 4 + 2) x.pos with
